@@ -280,3 +280,23 @@ impl AuthenticationBuiltin {
       .map_err(|e| security_error(&format!("Failed to generate random bytes: {}", e)))
   }
 }
+
+#[cfg(rustdds_verif)]
+impl AuthenticationBuiltin {
+  /// Verification hook: class of the handshake state kept for a remote identity handle
+  /// (0 PendingRequestSend, 1 PendingRequestMessage, 2 PendingReplyMessage,
+  /// 3 PendingFinalMessage, 4 CompletedWithFinalMessageSent, 5 CompletedWithFinalMessageReceived).
+  pub(crate) fn verif_handshake_state_class(&self, remote: IdentityHandle) -> Option<u8> {
+    self
+      .remote_participant_infos
+      .get(&remote)
+      .map(|info| match info.handshake.state {
+        BuiltinHandshakeState::PendingRequestSend => 0,
+        BuiltinHandshakeState::PendingRequestMessage => 1,
+        BuiltinHandshakeState::PendingReplyMessage { .. } => 2,
+        BuiltinHandshakeState::PendingFinalMessage { .. } => 3,
+        BuiltinHandshakeState::CompletedWithFinalMessageSent { .. } => 4,
+        BuiltinHandshakeState::CompletedWithFinalMessageReceived { .. } => 5,
+      })
+  }
+}
